@@ -12,7 +12,7 @@ Init == tid \in 1..Len(Traces) /\ l = 1 /\ s = S0 /\ fail = <<>>
 
 Step == /\ l <= Len(Traces[tid].ev)
         /\ LET ev  == Traces[tid].ev
-               bad == Bad(s, ev, l, Traces[tid].echo_to) IN
+               bad == Bad(s, ev, l, Traces[tid].echo_to, Traces[tid].untimed = 0) IN
            \* first occurrence of every distinct failing clause (so that one known defect cannot
            \* mask a different violation later in the same execution)
            /\ fail' = IF bad # "" /\ ~(\E k \in 1..Len(fail) : fail[k][2] = bad)
